@@ -8,7 +8,7 @@ package impl
 //	    → "<driver request>\t<obs>;<obs>;…"   obs = OK <goval> | ERR <hex msg> <path> | PANIC <hex msg>
 //	    → "INVALID <hex>" when the schema does not load or the document does not validate
 //	argmapgo <schema hex> <document hex> <opIndex> <coerce 0|1> <goval map>
-//	    → "<driver request>\t<obs>\t<argspec request>\t…" (triples) for every field and directive of the
+//	    → "<driver request>\t<obs>\t<argspec request>\t<argspec request with the linked definitions>\t…" (quadruples) for every field and directive of the
 //	      document; obs = OK <goval> | PANIC <hex msg>; with coerce=1 the variables are first run
 //	      through VariableValues of operation opIndex ("NOCOERCE <obs>" if that fails)
 //	strconvgo pi|pf|pb|quote <hex> ; strconvgo fold <hex> <hex>
@@ -286,7 +286,9 @@ func opArgMapGo(a []string) string {
 		}
 		// request for the model (linked definitions), Go observation, request for the specification
 		// (the definitions of the operation being executed)
-		out = append(out, argSiteRequest("argmap", st, vars, nil), argMapObs(st.call, vars), argSiteRequest("argspec", st, vars, opDefs))
+		// … and for the specification with the LINKED definitions (classifies a difference: if Go agrees
+		// with this one, the difference is due to the links alone)
+		out = append(out, argSiteRequest("argmap", st, vars, nil), argMapObs(st.call, vars), argSiteRequest("argspec", st, vars, opDefs), argSiteRequest("argspec", st, vars, nil))
 	}
 	return strings.Join(out, "\t")
 }
